@@ -112,9 +112,9 @@ HDR_SCHEMAS = [{"type": "integer"}, {"type": "integer", "minimum": 10}, {"type":
                {"type": "boolean"}, {}]
 HDR_VALUES = ["12", "5", "abc", "a", "bc", "true", "", "x y"]
 HDR_NAMES = ["X-A", "x-b", "X-Rate-Limit", "ETag", "Content-Type", "X_C"]
-STD_KEYS = ["200", "201", "204", "400", "404", "500", "2XX", "4XX", "5XX", "2xx", "4xx", "default"]
-CLEAN_KEYS = ["200", "201", "204", "400", "404", "500", "default"]
-WEIRD_KEYS = ["x-ext", "40X", "4X4", "XXX", "X00", "0200", " 200", "+200", "2_0_0", "2X", "", "abc", "-200", "20", "2000", "200 ", "_200", "20_", "2__0", "DEFAULT", "Default", 200, 404, 0, 99]
+STD_KEYS = ["200", "201", "204", "400", "404", "500", "2XX", "4XX", "5XX", "2xx", "4xx", "default", "x-ext", "X-Internal"]
+CLEAN_KEYS = ["200", "201", "204", "400", "404", "500", "default", "200", "404", "default", "x-ext", "X-2XX", "x-"]
+WEIRD_KEYS = ["x-ext", "x", "X", "-x", "xx-", "40X", "4X4", "XXX", "X00", "0200", " 200", "+200", "2_0_0", "2X", "", "abc", "-200", "20", "2000", "200 ", "_200", "20_", "2__0", "DEFAULT", "Default", 200, 404, 0, 99]
 
 
 # ----------------------------------------------------------------------------------------
@@ -541,6 +541,8 @@ def o_resolve(raw, d, depth=0):
 
 
 def o_key_matches(key, status: int):
+    if isinstance(key, str) and key[:2].lower() == "x-":
+        return False  # a specification extension is not a documented status code
     k = str(key).upper()
     s = str(status)
     return re.fullmatch(r"[1-5X][0-9X][0-9X]", k) is not None and len(s) == 3 and all(a == "X" or a == b for a, b in zip(k, s))
